@@ -612,6 +612,30 @@ def is_panic(c):
     return is_panic_plumbing(c)
 
 
+def provided_try_fold(db, an, name):
+    """(call, closure analysis) if the body folds through the provided `try_fold` (for fold) / `try_rfold` (for rfold) on `self`, never breaking."""
+    from ..ownership import never_breaks
+    want = "core::iter::Iterator::try_fold" if name == "fold" else "core::iter::DoubleEndedIterator::try_rfold"
+    over = "<GenericArrayIter<$0,$1> as core::iter::Iterator>::try_fold" if name == "fold" else "<GenericArrayIter<$0,$1> as core::iter::DoubleEndedIterator>::try_rfold"
+    if db.get(over) is not None:
+        return None   # overridden: not std's loop over next()
+    ds = [c for c in an.calls if c.fn == want]
+    if len(ds) != 1 or not never_breaks(ds[0]) or ds[0].res not in (want, ""):
+        return None
+    d = ds[0]
+    recv = d.args[0]
+    if not (recv[0] == "P" and recv[1] == ("local", 1) and not recv[2].t):
+        return None
+    cv = d.args[2]
+    if not (cv[0] == "A" and isinstance(cv[1], tuple) and cv[1][0] == "closure"):
+        return None
+    cb = db.by_path.get(cv[1][1])
+    if cb is None:
+        return None
+    from ..absint import analyze
+    return d, analyze(db, cb)
+
+
 def check_folds(ctx, cfg, it, name):
     rule = "C06.S"
     b, an = analyse(ctx, cfg, K[name], it, True)
@@ -625,7 +649,24 @@ def check_folds(ctx, cfg, it, name):
     drv = [c for c in an.calls if c.fn in ("core::iter::Iterator::fold", "core::iter::DoubleEndedIterator::rfold", "core::iter::Iterator::for_each", "core::iter::Iterator::try_fold")]
     ok = len(drv) == 1 and drv[0].fn == want_fn
     det = "expected exactly one %s over the live range; found %s" % (want_fn, [c.fn for c in drv])
-    if not drv:
+    prov = provided_try_fold(db, an, name)
+    if prov is not None:
+        # `self.try_fold(init, |acc, x| Ok::<_, Infallible>(f(acc, x)))` through the PROVIDED try_fold / try_rfold (the iterator does not override
+        # it): std's body is `while let Some(x) = self.next() { acc = g(acc, x)? }`, so with a residual that cannot exist it is the loop
+        # over the iterator's own next() / next_back() - each element moved out (and disowned) by that primitive before f sees it (C06.S next)
+        d, ca = prov
+        calls = [c for c in ca.calls if c.fn == "core::ops::FnMut::call_mut"]
+        from .c08 import count_on_paths
+        once = count_on_paths(ca, lambda c: c.fn == "core::ops::FnMut::call_mut") == {1} and len(calls) == 1
+        argok = once and calls[0].args[1] == ("A", "tuple", (("V", "arg", 2), ("V", "arg", 3))) \
+            and all(r["val"] == ("A", ("adt", "core::result::Result", 0), (calls[0].ret,)) for r in ca.returns)
+        init_ok = d.args[1] == ("V", "arg", 2)
+        others = [c.fn for c in an.calls if c is not d and c.fn.startswith("core::iter::") and c.fn.split("::")[-1] in ("fold", "rfold", "for_each", "try_fold", "try_rfold", "next", "next_back")]
+        ret_ok = bool(an.returns) and all(repr(("ret", d.bb)) in repr(r["val"]) for r in an.returns)
+        ok = bool(argok and init_ok and not others and ret_ok)
+        det = "%s = the provided %s on self with an uninhabited residual (= the loop over self's own %s): init passed through: %s; closure = Ok(f(acc, value)) once: %s; its result returned: %s" % (
+            name, d.fn.split("::")[-1], "next" if name == "fold" else "next_back", init_ok, argok, ret_ok)
+    elif not drv:
         ok, det = fold_by_next_loop(an, name)
     elif ok:
         d = drv[0]
